@@ -185,7 +185,9 @@ def real_fixture(scratch):
     cfgfile = os.path.join(scratch, "rustfmt.toml")
     with open(cfgfile, "w") as f:
         f.write("max_width = 60\nhard_tabs = true\n")
-    return {"@MISSING@": missing, "@DIR@": adir, "@NOEXEC@": noexec, "@GARBAGE@": garbage_exe,
+    with open(os.path.join(os.fsencode(scratch), b"cfg-\xff\xfe.toml"), "w") as f:
+        f.write("max_width = 80\n")
+    return {"@NONUTF8CFG@": "nonutf8:" + scratch, "@MISSING@": missing, "@DIR@": adir, "@NOEXEC@": noexec, "@GARBAGE@": garbage_exe,
             "@FAKEFMT@": FAKEFMT, "@RUSTFMT@": shutil.which("rustfmt") or "", "@CFG@": cfgfile}
 
 
@@ -255,7 +257,10 @@ def real_cases(tier, seed):
             add("prettyplease-to-file", size, variant, "", expect="tokens", formatter="prettyplease", sink="file")
             add("prettyplease-to-string", size, variant, "", expect="tokens", formatter="prettyplease", sink="string")
             add("none", size, variant, "", expect="tokens", formatter="none")
+            add("fake-ok-nonutf8-config", size, variant, FAKEFMT, "readall;write:formatted:all;exit:0", config="@NONUTF8CFG@")
+            add("fake-fail-nonutf8-config", size, variant, FAKEFMT, "readall;write:formatted:half;exit:1", config="@NONUTF8CFG@")
             if rustfmt:
+                add("real-rustfmt-nonutf8-config", size, variant, rustfmt, expect="tokens", config="@NONUTF8CFG@")
                 add("real-rustfmt", size, variant, rustfmt, expect="tokens")
                 add("real-rustfmt-config", size, variant, rustfmt, expect="tokens", config=cfgfile)
     return cases, bool(rustfmt)
